@@ -1074,4 +1074,879 @@ theorem mpz_tstbit_testBit (u : Z) (hu : u.WF) (i : Nat) :
     · rw [if_pos hli, testBit_high u.mag hu.limbs i hli _ (Nat.sub_le _ _)]; simp
     · rw [if_neg hli, testBit_pred u.mag hu.limbs (hu.pos hn) i (by omega), shr_mod2]; simp
 
+/-- the bit of `y` at position `r`, as a number -/
+def bitAt (y r : Nat) : Nat := if y.testBit r then 1 else 0
+
+theorem bitAt_lt (y r : Nat) : bitAt y r < 2 := by unfold bitAt; split <;> omega
+
+theorem bit_decomp (y r : Nat) : y = y % 2 ^ r + 2 ^ r * (bitAt y r + 2 * (y / 2 ^ (r + 1))) := by
+  have h1 := (Nat.mod_add_div y (2 ^ r)).symm
+  have h2 := (Nat.mod_add_div (y / 2 ^ r) 2).symm
+  have h3 : y / 2 ^ r / 2 = y / 2 ^ (r + 1) := by rw [Nat.div_div_eq_div_mul, pow_succ]
+  have h4 : y / 2 ^ r % 2 = bitAt y r := by
+    unfold bitAt; rw [Nat.testBit_eq_decide_div_mod_eq]
+    by_cases h : y / 2 ^ r % 2 = 1
+    · simp [h]
+    · simp [h]; omega
+  rw [h3, h4] at h2
+  conv_lhs => rw [h1, h2]
+
+theorem bw11 : Nat.bitwise (fun a b => a && !b) 1 1 = 0 := by simp [Nat.bitwise]
+theorem bw01 : Nat.bitwise (fun a b => a && !b) 0 1 = 0 := by simp
+theorem bx11 : Nat.bitwise bne 1 1 = 0 := by simp [Nat.bitwise]
+theorem bx01 : Nat.bitwise bne 0 1 = 1 := by simp
+theorem bo01 : Nat.bitwise or 0 1 = 1 := by simp
+theorem bo11 : Nat.bitwise or 1 1 = 1 := by simp [Nat.bitwise]
+
+theorem bitwise_two_pow (f : Bool → Bool → Bool) (hf : f false false = false) (hf1 : f true false = true)
+    (y r : Nat) :
+    Nat.bitwise f y (2 ^ r) = y % 2 ^ r + 2 ^ r * (Nat.bitwise f (bitAt y r) 1 + 2 * (y / 2 ^ (r + 1))) := by
+  have hlt : y % 2 ^ r < 2 ^ r := Nat.mod_lt _ (Nat.two_pow_pos r)
+  have s1 := bitwise_split f hf r (y % 2 ^ r) 0 (bitAt y r + 2 * (y / 2 ^ (r + 1))) 1 hlt (Nat.two_pow_pos r)
+  rw [← bit_decomp y r, Nat.bitwise_zero_right, if_pos hf1] at s1
+  simp only [Nat.zero_add, Nat.mul_one] at s1
+  have s2 := bitwise_split f hf 1 (bitAt y r) 1 (y / 2 ^ (r + 1)) 0 (by simpa using bitAt_lt y r) (by norm_num)
+  rw [Nat.bitwise_zero_right, if_pos hf1] at s2
+  simp only [pow_one, Nat.mul_zero, Nat.add_zero] at s2
+  rw [s1, s2]
+
+theorem or_two_pow_of_set {y r : Nat} (h : y.testBit r = true) : y ||| 2 ^ r = y := by
+  have := bitwise_two_pow or rfl rfl y r
+  have hb : bitAt y r = 1 := by simp [bitAt, h]
+  rw [hb, bo11] at this
+  conv_rhs => rw [bit_decomp y r, hb]
+  exact this
+
+theorem or_two_pow_of_clear {y r : Nat} (h : y.testBit r = false) : y ||| 2 ^ r = y + 2 ^ r := by
+  have := bitwise_two_pow or rfl rfl y r
+  have hb : bitAt y r = 0 := by simp [bitAt, h]
+  rw [hb] at this
+  have hd := bit_decomp y r
+  rw [hb] at hd
+  have e := bo01
+  rw [e] at this
+  change y ||| 2 ^ r = _ at this
+  rw [this]; conv_rhs => rw [hd]
+  ring
+
+theorem ldiff_two_pow_of_set {y r : Nat} (h : y.testBit r = true) : ldiff y (2 ^ r) = y - 2 ^ r := by
+  have := bitwise_two_pow (fun a b => a && !b) rfl rfl y r
+  have hb : bitAt y r = 1 := by simp [bitAt, h]
+  rw [hb] at this
+  have hd := bit_decomp y r
+  rw [hb] at hd
+  have e := bw11
+  rw [e] at this
+  change ldiff y (2 ^ r) = _ at this
+  rw [this]; conv_rhs => rw [hd]
+  have : y % 2 ^ r + 2 ^ r * (1 + 2 * (y / 2 ^ (r + 1))) = (y % 2 ^ r + 2 ^ r * (0 + 2 * (y / 2 ^ (r + 1)))) + 2 ^ r := by ring
+  rw [this, Nat.add_sub_cancel]
+
+theorem ldiff_two_pow_of_clear {y r : Nat} (h : y.testBit r = false) : ldiff y (2 ^ r) = y := by
+  have := bitwise_two_pow (fun a b => a && !b) rfl rfl y r
+  have hb : bitAt y r = 0 := by simp [bitAt, h]
+  rw [hb] at this
+  have hd := bit_decomp y r
+  rw [hb] at hd
+  have e := bw01
+  rw [e] at this
+  change ldiff y (2 ^ r) = _ at this
+  rw [this]; exact hd.symm
+
+theorem xor_two_pow_of_set {y r : Nat} (h : y.testBit r = true) : y ^^^ 2 ^ r = y - 2 ^ r := by
+  have := bitwise_two_pow bne rfl rfl y r
+  have hb : bitAt y r = 1 := by simp [bitAt, h]
+  rw [hb] at this
+  have hd := bit_decomp y r
+  rw [hb] at hd
+  have e := bx11
+  rw [e] at this
+  change y ^^^ 2 ^ r = _ at this
+  rw [this]; conv_rhs => rw [hd]
+  have : y % 2 ^ r + 2 ^ r * (1 + 2 * (y / 2 ^ (r + 1))) = (y % 2 ^ r + 2 ^ r * (0 + 2 * (y / 2 ^ (r + 1)))) + 2 ^ r := by ring
+  rw [this, Nat.add_sub_cancel]
+
+theorem xor_two_pow_of_clear {y r : Nat} (h : y.testBit r = false) : y ^^^ 2 ^ r = y + 2 ^ r := by
+  have := bitwise_two_pow bne rfl rfl y r
+  have hb : bitAt y r = 0 := by simp [bitAt, h]
+  rw [hb] at this
+  have hd := bit_decomp y r
+  rw [hb] at hd
+  have e := bx01
+  rw [e] at this
+  change y ^^^ 2 ^ r = _ at this
+  rw [this]; conv_rhs => rw [hd]
+  ring
+
+theorem two_pow_split (i : Nat) : 2 ^ i = B ^ (i / 64) * 2 ^ (i % 64) := by
+  rw [B_pow, ← pow_add]; congr 1; omega
+
+theorem bit_lt_B (i : Nat) : 2 ^ (i % 64) < B := by
+  unfold B; exact Nat.pow_lt_pow_right (by decide) (Nat.mod_lt _ (by decide))
+
+theorem two_bit_le_B (i : Nat) : 2 * 2 ^ (i % 64) ≤ B := by
+  unfold B
+  have : i % 64 + 1 ≤ 64 := by have := Nat.mod_lt i (by decide : 0 < 64); omega
+  calc 2 * 2 ^ (i % 64) = 2 ^ (i % 64 + 1) := by rw [pow_succ]; ring
+    _ ≤ 2 ^ 64 := Nat.pow_le_pow_right (by decide) this
+
+theorem val_replicate_zero (k : Nat) : val (List.replicate k 0) = 0 := by
+  induction k with
+  | zero => rfl
+  | succ k ih => simp [List.replicate_succ, ih]
+
+theorem Limbs_replicate_zero (k : Nat) : Limbs (List.replicate k 0) := by
+  intro x hx; rw [List.eq_of_mem_replicate hx]; exact B_pos
+
+theorem set_eq_split (l : List Nat) (li : Nat) (y : Nat) (h : li < l.length) :
+    l.set li y = l.take li ++ y :: l.drop (li + 1) := by
+  rw [List.set_eq_take_append_cons_drop, if_pos h]
+
+theorem val_set (l : List Nat) (li y : Nat) (h : li < l.length) :
+    val (l.set li y) = val (l.take li) + B ^ li * (y + B * val (l.drop (li + 1))) := by
+  rw [set_eq_split l li y h, val_append, List.length_take, Nat.min_eq_left (by omega), val_cons]
+
+theorem Limbs_set {l : List Nat} (hl : Limbs l) (li y : Nat) (hy : y < B) : Limbs (l.set li y) := by
+  intro x hx
+  rcases List.mem_or_eq_of_mem_set hx with h | h
+  · exact hl x h
+  · rw [h]; exact hy
+
+theorem norm_set {l : List Nat} (hn : Norm l) (li y : Nat) (h : li < l.length)
+    (hy : li + 1 = l.length → y ≠ 0) : Norm (l.set li y) := by
+  rw [set_eq_split l li y h]
+  by_cases ht : li + 1 = l.length
+  · have : l.drop (li + 1) = [] := List.drop_of_length_le (by omega)
+    rw [this]; unfold Norm; simp [hy ht]
+  · have hd : l.drop (li + 1) ≠ [] := by
+      intro h2; have := congrArg List.length h2; simp at this; omega
+    rw [show l.take li ++ y :: l.drop (li + 1) = (l.take li ++ [y]) ++ l.drop (li + 1) by simp]
+    apply norm_append hd
+    unfold Norm at *; rwa [List.getLast?_drop, if_neg (by omega)]
+
+/-- a bitwise operation with a one-limb second operand placed at limb `li` -/
+theorem bitwise_limb_at (f : Bool → Bool → Bool) (hf : f false false = false) (hf1 : f true false = true)
+    (li lo d e hi : Nat) (hlo : lo < B ^ li) (hd : d < B) (he : e < B) :
+    Nat.bitwise f (lo + B ^ li * (d + B * hi)) (B ^ li * e) =
+      lo + B ^ li * (Nat.bitwise f d e + B * hi) := by
+  have s1 := bitwise_split f hf (64 * li) lo 0 (d + B * hi) e (by rw [← B_pow]; exact hlo) (Nat.two_pow_pos _)
+  rw [← B_pow, Nat.bitwise_zero_right, if_pos hf1, Nat.zero_add] at s1
+  have s2 := bitwise_split f hf 64 d e hi 0 (by unfold B at hd; exact hd) (by unfold B at he; exact he)
+  rw [Nat.bitwise_zero_right, if_pos hf1, Nat.mul_zero, Nat.add_zero] at s2
+  change Nat.bitwise f (d + B * hi) e = Nat.bitwise f d e + B * hi at s2
+  rw [s1, s2]
+
+/-- the lowest non-zero limb -/
+theorem zeroBound_spec : ∀ (l : List Nat), 1 ≤ val l →
+    zeroBound l < l.length ∧ l.getD (zeroBound l) 0 ≠ 0 ∧
+    (∀ k, k ≤ zeroBound l → val (l.take k) = 0) ∧ (∀ k, zeroBound l < k → 1 ≤ val (l.take k))
+  | [], h => by simp at h
+  | x :: xs, h => by
+    unfold zeroBound
+    by_cases hx : x = 0
+    · subst hx
+      have hB := B_pos
+      have h' : 1 ≤ val xs := by
+        rcases Nat.eq_zero_or_pos (val xs) with h0 | h0
+        · simp [h0] at h
+        · exact h0
+      obtain ⟨i1, i2, i3, i4⟩ := zeroBound_spec xs h'
+      unfold zeroBound at i1 i2 i3 i4
+      simp only [List.takeWhile_cons, beq_self_eq_true, if_true, List.length_cons]
+      refine ⟨by omega, by simpa using i2, ?_, ?_⟩
+      · intro k hk
+        cases k with
+        | zero => rfl
+        | succ k => simp [i3 k (by omega)]
+      · intro k hk
+        cases k with
+        | zero => omega
+        | succ k =>
+          have := i4 k (by omega)
+          simp only [List.take_succ_cons, val_cons, Nat.zero_add]
+          exact Nat.mul_pos hB this
+    · have : (x == 0) = false := by simp [hx]
+      simp only [List.takeWhile_cons, this, Bool.false_eq_true, if_false, List.length_nil, List.length_cons]
+      refine ⟨by omega, by simpa using hx, ?_, ?_⟩
+      · intro k hk; have : k = 0 := by omega
+        subst this; rfl
+      · intro k hk
+        cases k with
+        | zero => omega
+        | succ k => simp only [List.take_succ_cons, val_cons]; omega
+
+/-- `size -= (ptr[size-1] == 0)` normalises as soon as the value reaches the limb below the top one -/
+theorem dropTopZero_spec2 (l : List Nat) (hl : Limbs l) (hge : 2 ≤ l.length → B ^ (l.length - 2) ≤ val l) :
+    val (dropTopZero l) = val l ∧ Limbs (dropTopZero l) ∧ Norm (dropTopZero l) := by
+  induction l using List.reverseRecOn with
+  | nil => simp [dropTopZero, Limbs_nil, Norm_nil]
+  | append_singleton l x _ =>
+    have hll := (Limbs_append.mp hl).1
+    unfold dropTopZero
+    by_cases hx : x = 0
+    · subst hx
+      simp only [List.getLast?_append, List.getLast?_singleton, Option.some_or, if_true,
+        List.dropLast_concat]
+      refine ⟨by rw [val_snoc]; simp, hll, ?_⟩
+      by_cases hl0 : l = []
+      · subst hl0; exact Norm_nil
+      · rw [norm_iff_ge l hll hl0]
+        have hlen : 1 ≤ l.length := List.length_pos_iff.mpr hl0
+        have := hge (by simp; omega)
+        simpa [val_snoc] using this
+    · have : ¬ ((l ++ [x]).getLast? = some 0) := by simp [hx]
+      rw [if_neg this]
+      exact ⟨rfl, hl, by simp [Norm, hx]⟩
+
+/-- the three parts of a limb vector around index `li`, with their bounds -/
+theorem split_facts (mag : List Nat) (hl : Limbs mag) (li : Nat) (h : li < mag.length) :
+    val mag = val (mag.take li) + B ^ li * (mag.getD li 0 + B * val (mag.drop (li + 1))) ∧
+    val (mag.take li) < B ^ li ∧ mag.getD li 0 < B := by
+  have hlo := val_lt _ (Limbs_take hl li)
+  rw [List.length_take, Nat.min_eq_left (by omega)] at hlo
+  exact ⟨val_split_at mag li h, hlo, getD_lt hl li⟩
+
+theorem ne_nil_of_lt {l : List Nat} {k : Nat} (h : k < l.length) : l ≠ [] := by
+  intro h2; rw [h2] at h; simp at h
+
+theorem setbit_pos_in (mag : List Nat) (i : Nat) (hl : Limbs mag) (hn : Norm mag) (h : i / 64 < mag.length) :
+    val (mag.set (i / 64) (mag.getD (i / 64) 0 ||| 2 ^ (i % 64))) = val mag ||| 2 ^ i ∧
+    Limbs (mag.set (i / 64) (mag.getD (i / 64) 0 ||| 2 ^ (i % 64))) ∧
+    Norm (mag.set (i / 64) (mag.getD (i / 64) 0 ||| 2 ^ (i % 64))) := by
+  obtain ⟨hs, hlo, hd⟩ := split_facts mag hl (i / 64) h
+  have hbit := bit_lt_B i
+  have hor : mag.getD (i / 64) 0 ||| 2 ^ (i % 64) < B := by
+    unfold B at *; exact Nat.or_lt_two_pow hd hbit
+  have hv : val (mag.set (i / 64) (mag.getD (i / 64) 0 ||| 2 ^ (i % 64))) = val mag ||| 2 ^ i := by
+    rw [val_set _ _ _ h]
+    conv_rhs => rw [hs, two_pow_split i]
+    exact (bitwise_limb_at or rfl rfl _ _ _ _ _ hlo hd hbit).symm
+  have hl' := Limbs_set hl (i / 64) _ hor
+  refine ⟨hv, hl', ?_⟩
+  have hne : mag.set (i / 64) (mag.getD (i / 64) 0 ||| 2 ^ (i % 64)) ≠ [] := by
+    apply ne_nil_of_lt (k := i / 64); simpa using h
+  rw [norm_iff_ge _ hl' hne, hv, List.length_set]
+  exact le_trans ((norm_iff_ge mag hl (ne_nil_of_lt h)).mp hn) Nat.left_le_or
+
+theorem val_lt_two_pow_of_short (mag : List Nat) (hl : Limbs mag) (i : Nat) (h : mag.length ≤ i / 64) :
+    val mag < 2 ^ i := by
+  have := val_lt mag hl
+  rw [B_pow] at this
+  exact lt_of_lt_of_le this (Nat.pow_le_pow_right (by decide) (by omega))
+
+/-- setbit.c:41-50 / clrbit.c:75-85: zero-extend to limb `li` and store the bit there -/
+theorem extend_bit (mag : List Nat) (i : Nat) (hl : Limbs mag) (h : mag.length ≤ i / 64) :
+    val (mag ++ List.replicate (i / 64 - mag.length) 0 ++ [2 ^ (i % 64)]) = val mag + 2 ^ i ∧
+    Limbs (mag ++ List.replicate (i / 64 - mag.length) 0 ++ [2 ^ (i % 64)]) ∧
+    Norm (mag ++ List.replicate (i / 64 - mag.length) 0 ++ [2 ^ (i % 64)]) := by
+  refine ⟨?_, ?_, ?_⟩
+  · rw [val_snoc, val_append, val_replicate_zero, List.length_append, List.length_replicate,
+      Nat.mul_zero, Nat.add_zero, two_pow_split i]
+    congr 3; omega
+  · apply Limbs_append.mpr ⟨Limbs_append.mpr ⟨hl, Limbs_replicate_zero _⟩, ?_⟩
+    intro x hx; simp at hx; rw [hx]; exact bit_lt_B i
+  · unfold Norm; simp
+
+/-- bits of `|x| - 1` below or at the lowest non-zero limb are the two's complement `-limb` -/
+theorem testBit_pred_low (mag : List Nat) (hl : Limbs mag) (h1 : 1 ≤ val mag) (i : Nat)
+    (h : i / 64 < zeroBound mag) : (val mag - 1).testBit i = true := by
+  obtain ⟨z1, z2, z3, z4⟩ := zeroBound_spec mag h1
+  have hli : i / 64 < mag.length := by omega
+  rw [testBit_pred mag hl h1 i hli]
+  unfold twosLimb
+  simp only
+  have hany : (mag.take (i / 64)).any (· != 0) = false := (val_eq_zero_iff _).mp (z3 _ (by omega))
+  rw [hany]
+  have hd0 : mag.getD (i / 64) 0 = 0 := by
+    have e1 := z3 (i / 64 + 1) (by omega)
+    rw [List.take_add_one, val_append] at e1
+    have hp := pow_B_pos (mag.take (i / 64)).length
+    have : val (mag[i / 64]?).toList = 0 := by
+      rcases Nat.eq_zero_or_pos (val (mag[i / 64]?).toList) with h0 | h0
+      · exact h0
+      · have := Nat.mul_pos hp h0; omega
+    rw [List.getD_eq_getElem?_getD, List.getElem?_eq_getElem hli] at *
+    simpa using this
+  rw [hd0]; simp [negL]
+
+theorem ldiff_le (y z : Nat) : ldiff y z ≤ y := by
+  apply Nat.le_of_testBit; intro i h
+  rw [ldiff, Nat.testBit_bitwise rfl] at h
+  simp at h; exact h.1
+
+theorem ne_nil_of_val_pos {l : List Nat} (h : 1 ≤ val l) : l ≠ [] := by
+  intro h2; rw [h2] at h; simp at h
+
+theorem pred_mod_B (d : Nat) (hd : d < B) (h0 : d ≠ 0) : (d + B - 1) % B = d - 1 := by
+  rw [B_eq] at *; omega
+
+/-- setbit on a negative number, bit above the lowest non-zero limb and inside the operand
+    (setbit.c:69-87): clear the bit of the magnitude limb, re-normalise if the high limb vanished -/
+theorem setbit_neg_above (mag : List Nat) (i : Nat) (hl : Limbs mag) (hn : Norm mag) (h1 : 1 ≤ val mag)
+    (hzb : zeroBound mag < i / 64) (h : i / 64 < mag.length) (res : List Nat)
+    (hres : (res = mag.set (i / 64) (mag.getD (i / 64) 0 &&& lnotL (2 ^ (i % 64))) ∧
+        (i / 64 + 1 = mag.length → mag.getD (i / 64) 0 &&& lnotL (2 ^ (i % 64)) ≠ 0)) ∨
+      (mag.getD (i / 64) 0 &&& lnotL (2 ^ (i % 64)) = 0 ∧
+        res = normalize (mag.set (i / 64) (mag.getD (i / 64) 0 &&& lnotL (2 ^ (i % 64)))))) :
+    val res = ldiff (val mag - 1) (2 ^ i) + 1 ∧ Limbs res ∧ Norm res ∧ res ≠ [] := by
+  obtain ⟨hs, hlo, hd⟩ := split_facts mag hl (i / 64) h
+  obtain ⟨_, _, _, z4⟩ := zeroBound_spec mag h1
+  have hlo1 := z4 (i / 64) hzb
+  have hbit := bit_lt_B i
+  have hdl : mag.getD (i / 64) 0 &&& lnotL (2 ^ (i % 64)) = ldiff (mag.getD (i / 64) 0) (2 ^ (i % 64)) :=
+    limbop_andn _ _ hd hbit
+  have hdlt : ldiff (mag.getD (i / 64) 0) (2 ^ (i % 64)) < B := lt_of_le_of_lt (ldiff_le _ _) hd
+  have hv : val (mag.set (i / 64) (mag.getD (i / 64) 0 &&& lnotL (2 ^ (i % 64)))) =
+      ldiff (val mag - 1) (2 ^ i) + 1 := by
+    rw [val_set _ _ _ h, hdl]
+    have e1 : val mag - 1 = (val (mag.take (i / 64)) - 1) +
+        B ^ (i / 64) * (mag.getD (i / 64) 0 + B * val (mag.drop (i / 64 + 1))) := by
+      rw [hs]
+      generalize B ^ (i / 64) * (mag.getD (i / 64) 0 + B * val (mag.drop (i / 64 + 1))) = t
+      omega
+    have key := bitwise_limb_at (fun a b => a && !b) rfl rfl (i / 64) (val (mag.take (i / 64)) - 1)
+      (mag.getD (i / 64) 0) (2 ^ (i % 64)) (val (mag.drop (i / 64 + 1))) (by omega) hd hbit
+    change ldiff _ _ = _ + _ * (ldiff _ _ + _) at key
+    rw [e1, two_pow_split i, key]
+    generalize B ^ (i / 64) * (ldiff (mag.getD (i / 64) 0) (2 ^ (i % 64)) + B * val (mag.drop (i / 64 + 1))) = t
+    omega
+  have hl' := Limbs_set hl (i / 64) _ (hdl ▸ hdlt)
+  rcases hres with ⟨hr, hres2⟩ | ⟨_, hr⟩
+  · rw [hr]
+    refine ⟨hv, hl', norm_set hn _ _ h hres2, ne_nil_of_val_pos (by rw [hv]; omega)⟩
+  · obtain ⟨n1, n2, n3, _, _⟩ := normalize_spec (mag.set (i / 64) (mag.getD (i / 64) 0 &&& lnotL (2 ^ (i % 64))))
+    rw [hr]
+    refine ⟨by rw [n1, hv], n3 hl', n2, ne_nil_of_val_pos (by rw [n1, hv]; omega)⟩
+
+/-- value of `|x| - 1` when limb `li` is the lowest non-zero limb `d` -/
+theorem pred_at_zb (p d hi : Nat) (hp : 0 < p) (hd : 1 ≤ d) :
+    p * (d + B * hi) - 1 = (p - 1) + p * ((d - 1) + B * hi) := by
+  have : d + B * hi = ((d - 1) + B * hi) + 1 := by omega
+  rw [this, Nat.mul_succ]
+  generalize p * (d - 1 + B * hi) = t
+  omega
+
+/-- setbit on a negative number at its lowest non-zero limb (setbit.c:88-110); the carry branch is dead:
+    clearing a bit of `limb - 1` and adding 1 cannot wrap. -/
+theorem setbit_neg_at (mag : List Nat) (i : Nat) (hl : Limbs mag) (hn : Norm mag) (h1 : 1 ≤ val mag)
+    (hzb : i / 64 = zeroBound mag) :
+    ((((mag.getD (i / 64) 0 + B - 1) % B) &&& lnotL (2 ^ (i % 64))) + 1) % B ≠ 0 ∧
+    val (mag.set (i / 64) (((((mag.getD (i / 64) 0 + B - 1) % B) &&& lnotL (2 ^ (i % 64))) + 1) % B)) =
+      ldiff (val mag - 1) (2 ^ i) + 1 ∧
+    Limbs (mag.set (i / 64) (((((mag.getD (i / 64) 0 + B - 1) % B) &&& lnotL (2 ^ (i % 64))) + 1) % B)) ∧
+    Norm (mag.set (i / 64) (((((mag.getD (i / 64) 0 + B - 1) % B) &&& lnotL (2 ^ (i % 64))) + 1) % B)) := by
+  obtain ⟨z1, z2, z3, _⟩ := zeroBound_spec mag h1
+  rw [← hzb] at z1 z2
+  have hlo0 := z3 (i / 64) (by omega)
+  obtain ⟨hs, hlo, hd⟩ := split_facts mag hl (i / 64) z1
+  have hbit := bit_lt_B i
+  have hp := pow_B_pos (i / 64)
+  rw [hlo0, Nat.zero_add] at hs
+  generalize hdd : mag.getD (i / 64) 0 = d at *
+  have hd1 : 1 ≤ d := Nat.pos_of_ne_zero z2
+  rw [pred_mod_B d hd z2, limbop_andn (d - 1) _ (by omega) hbit]
+  have hle := ldiff_le (d - 1) (2 ^ (i % 64))
+  have hx : (ldiff (d - 1) (2 ^ (i % 64)) + 1) % B = ldiff (d - 1) (2 ^ (i % 64)) + 1 :=
+    Nat.mod_eq_of_lt (by omega)
+  rw [hx]
+  have hxlt : ldiff (d - 1) (2 ^ (i % 64)) + 1 < B := by omega
+  refine ⟨by omega, ?_, Limbs_set hl _ _ hxlt, norm_set hn _ _ z1 (fun _ => by omega)⟩
+  rw [val_set _ _ _ z1, hlo0, Nat.zero_add, hs, pred_at_zb _ _ _ hp hd1, two_pow_split i]
+  have key := bitwise_limb_at (fun a b => a && !b) rfl rfl (i / 64) (B ^ (i / 64) - 1) (d - 1) (2 ^ (i % 64))
+    (val (mag.drop (i / 64 + 1))) (by omega) (by omega) hbit
+  change ldiff _ _ = _ + _ * (ldiff _ _ + _) at key
+  rw [key]
+  generalize ldiff (d - 1) (2 ^ (i % 64)) = e
+  generalize val (mag.drop (i / 64 + 1)) = hi
+  generalize B ^ (i / 64) = p at *
+  have : p * (e + 1 + B * hi) = p * (e + B * hi) + p := by ring
+  rw [this]; omega
+
+/-- setbit on a negative number beyond its length: the bit is already 1 (sign extension) -/
+theorem setbit_neg_beyond (mag : List Nat) (i : Nat) (hl : Limbs mag) (h1 : 1 ≤ val mag)
+    (h : mag.length ≤ i / 64) : val mag = ldiff (val mag - 1) (2 ^ i) + 1 := by
+  have := testBit_high mag hl i h (val mag - 1) (Nat.sub_le _ _)
+  rw [ldiff_two_pow_of_clear this]; omega
+
+/-- mpn_sub_1 / mpn_decr_u without borrow out -/
+theorem subLimb_noborrow (u : List Nat) (hu : Limbs u) (v : Nat) (hv : v < B) (hne : u ≠ []) (hge : v ≤ val u) :
+    val (subLimb u v).1 = val u - v ∧ Limbs (subLimb u v).1 ∧ (subLimb u v).1.length = u.length := by
+  match u, hne with
+  | x :: xs, _ =>
+    obtain ⟨a1, a2, a3, a4⟩ := subLimb_val x xs v hu hv
+    have hlt := val_lt _ a3
+    rw [a4] at hlt
+    refine ⟨?_, a3, by simpa using a4⟩
+    generalize (subLimb (x :: xs) v).2 = c at *
+    generalize val (subLimb (x :: xs) v).1 = r at *
+    generalize val (x :: xs) = vu at *
+    have hc : c = 0 := by
+      by_contra hc
+      have : c = 1 := by omega
+      subst this
+      rw [Nat.mul_one] at a1
+      generalize B ^ (xs.length + 1) = p at *
+      omega
+    subst hc; rw [Nat.mul_zero] at a1; omega
+
+/-- mpn_add_1 on the high part: value and growth -/
+theorem addLimb_spec (u : List Nat) (hu : Limbs u) (v : Nat) (hv : v < B) (hne : u ≠ []) :
+    val (addLimb u v).1 + B ^ u.length * (addLimb u v).2 = val u + v ∧ (addLimb u v).2 ≤ 1 ∧
+    Limbs (addLimb u v).1 ∧ (addLimb u v).1.length = u.length := by
+  match u, hne with
+  | x :: xs, _ => simpa using addLimb_val x xs v hu hv
+
+/-- setbit on a negative number below its lowest non-zero limb (setbit.c:111-117): the magnitude
+    decreases by 2^i; at most the top limb becomes zero. -/
+theorem setbit_neg_below (mag : List Nat) (i : Nat) (hl : Limbs mag) (hn : Norm mag) (h1 : 1 ≤ val mag)
+    (hzb : i / 64 < zeroBound mag) :
+    val (dropTopZero (mag.take (i / 64) ++ (subLimb (mag.drop (i / 64)) (2 ^ (i % 64))).1)) =
+      ldiff (val mag - 1) (2 ^ i) + 1 ∧
+    Limbs (dropTopZero (mag.take (i / 64) ++ (subLimb (mag.drop (i / 64)) (2 ^ (i % 64))).1)) ∧
+    Norm (dropTopZero (mag.take (i / 64) ++ (subLimb (mag.drop (i / 64)) (2 ^ (i % 64))).1)) ∧
+    dropTopZero (mag.take (i / 64) ++ (subLimb (mag.drop (i / 64)) (2 ^ (i % 64))).1) ≠ [] := by
+  obtain ⟨z1, _, z3, _⟩ := zeroBound_spec mag h1
+  have hli : i / 64 < mag.length := by omega
+  have hlo0 := z3 (i / 64) (by omega)
+  have hbit := bit_lt_B i
+  have hp := pow_B_pos (i / 64)
+  have htb := testBit_pred_low mag hl h1 i hzb
+  have hge := Nat.ge_two_pow_of_testBit htb
+  have hsplit := val_take_drop mag (i / 64) (by omega)
+  rw [hlo0, Nat.zero_add] at hsplit
+  have hdne : mag.drop (i / 64) ≠ [] := by
+    intro h2; have := congrArg List.length h2; simp at this; omega
+  -- W ≥ bit
+  have hW : 2 ^ (i % 64) ≤ val (mag.drop (i / 64)) := by
+    by_contra hlt
+    have hlt : val (mag.drop (i / 64)) < 2 ^ (i % 64) := by omega
+    have := Nat.mul_lt_mul_of_pos_left hlt hp
+    rw [← hsplit, ← two_pow_split i] at this; omega
+  obtain ⟨s1, s2, s3⟩ := subLimb_noborrow (mag.drop (i / 64)) (Limbs_drop hl _) _ hbit hdne hW
+  have hlen : (mag.take (i / 64) ++ (subLimb (mag.drop (i / 64)) (2 ^ (i % 64))).1).length = mag.length := by
+    rw [List.length_append, s3, List.length_take, List.length_drop]; omega
+  have hv : val (mag.take (i / 64) ++ (subLimb (mag.drop (i / 64)) (2 ^ (i % 64))).1) =
+      ldiff (val mag - 1) (2 ^ i) + 1 := by
+    rw [val_append, hlo0, Nat.zero_add, List.length_take, Nat.min_eq_left (by omega), s1,
+      ldiff_two_pow_of_set htb, Nat.mul_sub, ← hsplit, ← two_pow_split i]
+    omega
+  have hl' : Limbs (mag.take (i / 64) ++ (subLimb (mag.drop (i / 64)) (2 ^ (i % 64))).1) :=
+    Limbs_append.mpr ⟨Limbs_take hl _, s2⟩
+  obtain ⟨d1, d2, d3⟩ := dropTopZero_spec2 _ hl' (by
+    intro h2
+    rw [hlen] at h2 ⊢
+    rw [hv, ldiff_two_pow_of_set htb]
+    have gb := (norm_iff_ge mag hl (ne_nil_of_lt hli)).mp hn
+    -- 2 * 2^i ≤ B^(n-1) = B * B^(n-2)
+    have e1 : 2 * 2 ^ i ≤ B ^ (mag.length - 1) := by
+      rw [two_pow_split i]
+      calc 2 * (B ^ (i / 64) * 2 ^ (i % 64)) = B ^ (i / 64) * (2 * 2 ^ (i % 64)) := by ring
+        _ ≤ B ^ (i / 64) * B := Nat.mul_le_mul_left _ (two_bit_le_B i)
+        _ = B ^ (i / 64 + 1) := by rw [pow_succ]
+        _ ≤ B ^ (mag.length - 1) := Nat.pow_le_pow_right B_pos (by omega)
+    have e2 : B ^ (mag.length - 1) = B * B ^ (mag.length - 2) := by
+      rw [← pow_succ']; congr 1; omega
+    generalize B ^ (mag.length - 1) = P at *
+    generalize B ^ (mag.length - 2) = Q at *
+    generalize (2 : Nat) ^ i = t at *
+    rw [B_eq] at e2; omega)
+  refine ⟨by rw [d1, hv], d2, d3, ne_nil_of_val_pos (by rw [d1, hv]; omega)⟩
+
+theorem lor_pos (x k : Nat) : lor (Int.ofNat x) (Int.ofNat k) = Int.ofNat (x ||| k) := rfl
+theorem lor_neg (m k : Nat) : lor (Int.negSucc m) (Int.ofNat k) = Int.negSucc (ldiff m k) := rfl
+
+/-- shape of the negative-operand result: sign kept, magnitude = (bits of |x|-1 updated) + 1 -/
+theorem neg_result (r : Z) (m' : Nat)
+    (h : r.neg = true ∧ val r.mag = m' + 1 ∧ Limbs r.mag ∧ Norm r.mag ∧ r.mag ≠ []) :
+    r.toInt = Int.negSucc m' ∧ r.WF := by
+  obtain ⟨r1, r2, r3, r4, r5⟩ := h
+  refine ⟨?_, Z.WF.mk' r3 r4 (fun _ => r5)⟩
+  rw [toInt_neg r r1 (by omega), r2]; rfl
+
+theorem mpz_setbit_lor (d : Z) (hd : d.WF) (i : Nat) :
+    (mpz_setbit d i).toInt = lor d.toInt (Int.ofNat (2 ^ i)) ∧ (mpz_setbit d i).WF := by
+  unfold mpz_setbit
+  simp only
+  cases hn : d.neg
+  · simp only [Bool.not_false, ↓reduceIte]
+    rw [toInt_nonneg d hn, lor_pos]
+    by_cases hli : i / 64 < d.mag.length
+    · rw [if_pos hli]
+      obtain ⟨v, l, n⟩ := setbit_pos_in d.mag i hd.limbs hd.norm hli
+      refine ⟨?_, Z.WF.mk' l n (by intro h; cases h)⟩
+      rw [toInt_nonneg _ rfl]; exact congrArg Int.ofNat v
+    · rw [if_neg hli]
+      obtain ⟨v, l, n⟩ := extend_bit d.mag i hd.limbs (by omega)
+      refine ⟨?_, Z.WF.mk' l n (by intro h; cases h)⟩
+      rw [toInt_nonneg _ rfl]
+      change Int.ofNat (val (d.mag ++ List.replicate (i / 64 - d.mag.length) 0 ++ [2 ^ (i % 64)])) = _
+      rw [v, Nat.or_two_pow_eq_add_of_lt (val_lt_two_pow_of_short d.mag hd.limbs i (by omega))]
+  · simp only [Bool.not_true, Bool.false_eq_true, ↓reduceIte]
+    have h1 := hd.pos hn
+    rw [toInt_neg d hn h1, lor_neg]
+    by_cases hgt : i / 64 > zeroBound d.mag
+    · rw [if_pos hgt]
+      by_cases hli : i / 64 < d.mag.length
+      · rw [if_pos hli]
+        split
+        · rename_i hc
+          exact neg_result _ _ ⟨rfl,
+            setbit_neg_above d.mag i hd.limbs hd.norm h1 hgt hli _ (Or.inr ⟨hc.1, rfl⟩)⟩
+        · rename_i hc
+          exact neg_result _ _ ⟨rfl,
+            setbit_neg_above d.mag i hd.limbs hd.norm h1 hgt hli _
+              (Or.inl ⟨rfl, fun ht h0 => hc ⟨h0, by omega⟩⟩)⟩
+      · rw [if_neg hli]
+        refine ⟨?_, hd⟩
+        rw [toInt_neg d hn h1]
+        have := setbit_neg_beyond d.mag i hd.limbs h1 (by omega)
+        congr 1; omega
+    · rw [if_neg hgt]
+      by_cases heq : i / 64 = zeroBound d.mag
+      · rw [if_pos heq]
+        obtain ⟨x0, v, l, n⟩ := setbit_neg_at d.mag i hd.limbs hd.norm h1 heq
+        rw [if_neg x0]
+        exact neg_result _ _ ⟨rfl, v, l, n, ne_nil_of_val_pos (by rw [v]; omega)⟩
+      · rw [if_neg heq]
+        exact neg_result _ _ ⟨rfl, setbit_neg_below d.mag i hd.limbs hd.norm h1 (by omega)⟩
+
+theorem land_lnot_pos (x k : Nat) : land (Int.ofNat x) (lnot (Int.ofNat k)) = Int.ofNat (ldiff x k) := rfl
+theorem land_lnot_neg (m k : Nat) : land (Int.negSucc m) (lnot (Int.ofNat k)) = Int.negSucc (m ||| k) := rfl
+
+/-- clrbit on a non-negative number inside the operand (clrbit.c:35-50) -/
+theorem clrbit_pos_in (mag : List Nat) (i : Nat) (hl : Limbs mag) (hn : Norm mag) (h : i / 64 < mag.length)
+    (res : List Nat)
+    (hres : (res = mag.set (i / 64) (mag.getD (i / 64) 0 &&& lnotL (2 ^ (i % 64))) ∧
+        (i / 64 + 1 = mag.length → mag.getD (i / 64) 0 &&& lnotL (2 ^ (i % 64)) ≠ 0)) ∨
+      res = normalize (mag.set (i / 64) (mag.getD (i / 64) 0 &&& lnotL (2 ^ (i % 64))))) :
+    val res = ldiff (val mag) (2 ^ i) ∧ Limbs res ∧ Norm res := by
+  obtain ⟨hs, hlo, hd⟩ := split_facts mag hl (i / 64) h
+  have hbit := bit_lt_B i
+  have hdl : mag.getD (i / 64) 0 &&& lnotL (2 ^ (i % 64)) = ldiff (mag.getD (i / 64) 0) (2 ^ (i % 64)) :=
+    limbop_andn _ _ hd hbit
+  have hdlt : ldiff (mag.getD (i / 64) 0) (2 ^ (i % 64)) < B := lt_of_le_of_lt (ldiff_le _ _) hd
+  have hv : val (mag.set (i / 64) (mag.getD (i / 64) 0 &&& lnotL (2 ^ (i % 64)))) = ldiff (val mag) (2 ^ i) := by
+    rw [val_set _ _ _ h, hdl]
+    have key := bitwise_limb_at (fun a b => a && !b) rfl rfl (i / 64) (val (mag.take (i / 64)))
+      (mag.getD (i / 64) 0) (2 ^ (i % 64)) (val (mag.drop (i / 64 + 1))) hlo hd hbit
+    change ldiff _ _ = _ + _ * (ldiff _ _ + _) at key
+    conv_rhs => rw [hs, two_pow_split i]
+    exact key.symm
+  have hl' := Limbs_set hl (i / 64) _ (hdl ▸ hdlt)
+  rcases hres with ⟨hr, hres2⟩ | hr
+  · rw [hr]; exact ⟨hv, hl', norm_set hn _ _ h hres2⟩
+  · obtain ⟨n1, n2, n3, _, _⟩ := normalize_spec (mag.set (i / 64) (mag.getD (i / 64) 0 &&& lnotL (2 ^ (i % 64))))
+    rw [hr]; exact ⟨by rw [n1, hv], n3 hl', n2⟩
+
+/-- clrbit on a negative number above its lowest non-zero limb, inside the operand (clrbit.c:71-74) -/
+theorem clrbit_neg_above (mag : List Nat) (i : Nat) (hl : Limbs mag) (hn : Norm mag) (h1 : 1 ≤ val mag)
+    (hzb : zeroBound mag < i / 64) (h : i / 64 < mag.length) :
+    val (mag.set (i / 64) (mag.getD (i / 64) 0 ||| 2 ^ (i % 64))) = ((val mag - 1) ||| 2 ^ i) + 1 ∧
+    Limbs (mag.set (i / 64) (mag.getD (i / 64) 0 ||| 2 ^ (i % 64))) ∧
+    Norm (mag.set (i / 64) (mag.getD (i / 64) 0 ||| 2 ^ (i % 64))) := by
+  obtain ⟨hs, hlo, hd⟩ := split_facts mag hl (i / 64) h
+  obtain ⟨_, _, _, z4⟩ := zeroBound_spec mag h1
+  have hlo1 := z4 (i / 64) hzb
+  have hbit := bit_lt_B i
+  have hor : mag.getD (i / 64) 0 ||| 2 ^ (i % 64) < B := by
+    unfold B at *; exact Nat.or_lt_two_pow hd hbit
+  refine ⟨?_, Limbs_set hl _ _ hor, norm_set hn _ _ h (fun _ h0 => ?_)⟩
+  · rw [val_set _ _ _ h]
+    have e1 : val mag - 1 = (val (mag.take (i / 64)) - 1) +
+        B ^ (i / 64) * (mag.getD (i / 64) 0 + B * val (mag.drop (i / 64 + 1))) := by
+      rw [hs]
+      generalize B ^ (i / 64) * (mag.getD (i / 64) 0 + B * val (mag.drop (i / 64 + 1))) = t
+      omega
+    have key := bitwise_limb_at or rfl rfl (i / 64) (val (mag.take (i / 64)) - 1)
+      (mag.getD (i / 64) 0) (2 ^ (i % 64)) (val (mag.drop (i / 64 + 1))) (by omega) hd hbit
+    change (_ : Nat) ||| (_ : Nat) = _ + _ * (((_ : Nat) ||| (_ : Nat)) + _) at key
+    rw [e1, two_pow_split i, key]
+    generalize B ^ (i / 64) * ((mag.getD (i / 64) 0 ||| 2 ^ (i % 64)) + B * val (mag.drop (i / 64 + 1))) = t
+    omega
+  · have := Nat.or_eq_zero_iff.mp h0
+    have := Nat.two_pow_pos (i % 64); omega
+
+/-- the carry loop of clrbit.c:92-110 (also setbit.c:92-109): the limb at `li` is 0 after the `+1`, the carry
+    goes into the limbs above and may grow the number by one limb.  `hi` = value of the limbs above. -/
+theorem carryAbove_spec (m : List Nat) (li : Nat) (hl : Limbs m) (h : li < m.length) (h0 : m.getD li 0 = 0) :
+    val (carryAbove m li) = val (m.take li) + B ^ li * (B * (val (m.drop (li + 1)) + 1)) ∧
+    Limbs (carryAbove m li) ∧
+    (carryAbove m li).length ≥ m.length ∧
+    ((carryAbove m li).length = m.length ∨ (carryAbove m li).getLast? = some 1) := by
+  obtain ⟨i1, i2, i3, i4⟩ := incr_val (m.drop (li + 1)) (Limbs_drop hl _)
+  unfold carryAbove
+  generalize incr (m.drop (li + 1)) = res at *
+  obtain ⟨r, c⟩ := res
+  simp only at i1 i2 i3 i4 ⊢
+  have htake : m.take (li + 1) = m.take li ++ [0] := by
+    rw [List.take_add_one]; congr 1
+    rw [List.getD_eq_getElem?_getD, List.getElem?_eq_getElem h] at h0
+    rw [List.getElem?_eq_getElem h]; simp at h0 ⊢; exact h0
+  have hlen : (m.take li).length = li := by rw [List.length_take]; omega
+  have h1B : 1 < B := by rw [B_eq]; norm_num
+  by_cases hc : c = 0
+  · subst hc
+    rw [Nat.mul_zero, Nat.add_zero] at i1
+    simp only [ne_eq, not_true_eq_false, if_false]
+    refine ⟨?_, Limbs_append.mpr ⟨Limbs_take hl _, i3⟩, ?_, Or.inl ?_⟩
+    · rw [htake, List.append_assoc, val_append, hlen, List.singleton_append, val_cons, i1]; ring
+    · rw [List.length_append, i4, List.length_take, List.length_drop]; omega
+    · rw [List.length_append, i4, List.length_take, List.length_drop]; omega
+  · have hc1 : c = 1 := by omega
+    subst hc1
+    rw [Nat.mul_one] at i1
+    simp only [ne_eq, one_ne_zero, not_false_eq_true, if_true]
+    refine ⟨?_, Limbs_append.mpr ⟨Limbs_take hl _, Limbs_append.mpr ⟨i3, ?_⟩⟩, ?_, Or.inr ?_⟩
+    · rw [htake, List.append_assoc, val_append, hlen, List.singleton_append, val_cons, val_snoc, i4,
+        Nat.mul_one, i1]; ring
+    · intro y hy; simp at hy; rw [hy]; exact h1B
+    · simp only [List.length_append, i4, List.length_take, List.length_drop, List.length_singleton]; omega
+    · simp [List.getLast?_append]
+
+/-- clrbit on a negative number at its lowest non-zero limb (clrbit.c:87-111) -/
+theorem clrbit_neg_at (mag : List Nat) (i : Nat) (hl : Limbs mag) (hn : Norm mag) (h1 : 1 ≤ val mag)
+    (hzb : i / 64 = zeroBound mag) (x : Nat)
+    (hx : x = ((((mag.getD (i / 64) 0 + B - 1) % B) ||| 2 ^ (i % 64)) + 1) % B) (res : List Nat)
+    (hres : res = if x = 0 then carryAbove (mag.set (i / 64) x) (i / 64) else mag.set (i / 64) x) :
+    val res = ((val mag - 1) ||| 2 ^ i) + 1 ∧ Limbs res ∧ Norm res ∧ res ≠ [] := by
+  obtain ⟨z1, z2, z3, _⟩ := zeroBound_spec mag h1
+  rw [← hzb] at z1 z2
+  have hlo0 := z3 (i / 64) (by omega)
+  obtain ⟨hs, hlo, hd⟩ := split_facts mag hl (i / 64) z1
+  have hbit := bit_lt_B i
+  have hp := pow_B_pos (i / 64)
+  rw [hlo0, Nat.zero_add] at hs
+  generalize hdd : mag.getD (i / 64) 0 = d at *
+  have hd1 : 1 ≤ d := Nat.pos_of_ne_zero z2
+  rw [pred_mod_B d hd z2] at hx
+  have hy : (d - 1) ||| 2 ^ (i % 64) < B := by
+    unfold B at *; exact Nat.or_lt_two_pow (by omega) hbit
+  -- target value in limb form
+  have key := bitwise_limb_at or rfl rfl (i / 64) (B ^ (i / 64) - 1) (d - 1) (2 ^ (i % 64))
+    (val (mag.drop (i / 64 + 1))) (by omega) (by omega) hbit
+  change (_ : Nat) ||| (_ : Nat) = _ + _ * (((_ : Nat) ||| (_ : Nat)) + _) at key
+  have htarget : ((val mag - 1) ||| 2 ^ i) + 1 =
+      B ^ (i / 64) * ((((d - 1) ||| 2 ^ (i % 64)) + 1) + B * val (mag.drop (i / 64 + 1))) := by
+    rw [hs, pred_at_zb _ _ _ hp hd1, two_pow_split i, key]
+    generalize (d - 1) ||| 2 ^ (i % 64) = e
+    generalize val (mag.drop (i / 64 + 1)) = hi
+    generalize B ^ (i / 64) = p at *
+    have : p * (e + 1 + B * hi) = p * (e + B * hi) + p := by ring
+    rw [this]; omega
+  have hge : val mag ≤ ((val mag - 1) ||| 2 ^ i) + 1 := by
+    have : val mag - 1 ≤ (val mag - 1) ||| 2 ^ i := Nat.left_le_or
+    omega
+  have gb := (norm_iff_ge mag hl (ne_nil_of_lt z1)).mp hn
+  have hxlt : x < B := by rw [hx]; exact Nat.mod_lt _ B_pos
+  have hlm := Limbs_set hl (i / 64) x hxlt
+  by_cases hx0 : x = 0
+  · rw [if_pos hx0] at hres
+    have hyB : ((d - 1) ||| 2 ^ (i % 64)) + 1 = B := by
+      by_contra hne
+      rw [Nat.mod_eq_of_lt (by omega)] at hx; omega
+    have hg0 : (mag.set (i / 64) x).getD (i / 64) 0 = 0 := by
+      rw [List.getD_eq_getElem?_getD, List.getElem?_set_self (by simpa using z1)]; simpa using hx0
+    obtain ⟨c1, c2, c3, c4⟩ := carryAbove_spec (mag.set (i / 64) x) (i / 64) hlm (by simpa using z1) hg0
+    have hval : val res = ((val mag - 1) ||| 2 ^ i) + 1 := by
+      rw [hres, c1, htarget, hyB, List.take_set_of_le (le_refl _), List.drop_set_of_lt (by omega), hlo0]
+      ring
+    have hl' : Limbs res := by rw [hres]; exact c2
+    have hne : res ≠ [] := ne_nil_of_val_pos (by rw [hval]; omega)
+    refine ⟨hval, hl', ?_, hne⟩
+    rcases c4 with c4 | c4
+    · rw [norm_iff_ge res hl' hne, hval, hres, c4, List.length_set]
+      exact le_trans gb hge
+    · rw [hres]; unfold Norm; rw [c4]; simp
+  · rw [if_neg hx0] at hres
+    have hyB : ((d - 1) ||| 2 ^ (i % 64)) + 1 < B := by
+      by_contra hne
+      have : ((d - 1) ||| 2 ^ (i % 64)) + 1 = B := by omega
+      rw [this, Nat.mod_self] at hx; exact hx0 hx
+    rw [Nat.mod_eq_of_lt hyB] at hx
+    have hval : val res = ((val mag - 1) ||| 2 ^ i) + 1 := by
+      rw [hres, val_set _ _ _ z1, hlo0, Nat.zero_add, htarget, hx]
+    have hl' : Limbs res := by rw [hres]; exact hlm
+    exact ⟨hval, hl', by rw [hres]; exact norm_set hn _ _ z1 (fun _ => hx0),
+      ne_nil_of_val_pos (by rw [hval]; omega)⟩
+
+theorem mpz_clrbit_land (d : Z) (hd : d.WF) (i : Nat) :
+    (mpz_clrbit d i).toInt = land d.toInt (lnot (Int.ofNat (2 ^ i))) ∧ (mpz_clrbit d i).WF := by
+  unfold mpz_clrbit
+  simp only
+  cases hn : d.neg
+  · simp only [Bool.not_false, ↓reduceIte]
+    rw [toInt_nonneg d hn, land_lnot_pos]
+    by_cases hli : i / 64 < d.mag.length
+    · rw [if_pos hli]
+      split
+      · obtain ⟨v, l, n⟩ := clrbit_pos_in d.mag i hd.limbs hd.norm hli _ (Or.inr rfl)
+        refine ⟨?_, Z.WF.mk' l n (by intro h; cases h)⟩
+        rw [toInt_nonneg _ rfl]; exact congrArg Int.ofNat v
+      · rename_i hc
+        obtain ⟨v, l, n⟩ := clrbit_pos_in d.mag i hd.limbs hd.norm hli _
+          (Or.inl ⟨rfl, fun ht h0 => hc ⟨h0, by omega⟩⟩)
+        refine ⟨?_, Z.WF.mk' l n (by intro h; cases h)⟩
+        rw [toInt_nonneg _ rfl]; exact congrArg Int.ofNat v
+    · rw [if_neg hli]
+      refine ⟨?_, hd⟩
+      rw [toInt_nonneg d hn,
+        ldiff_two_pow_of_clear (testBit_high d.mag hd.limbs i (by omega) _ (le_refl _))]
+  · simp only [Bool.not_true, Bool.false_eq_true, ↓reduceIte]
+    have h1 := hd.pos hn
+    rw [toInt_neg d hn h1, land_lnot_neg]
+    by_cases hgt : i / 64 > zeroBound d.mag
+    · rw [if_pos hgt]
+      by_cases hli : i / 64 < d.mag.length
+      · rw [if_pos hli]
+        obtain ⟨v, l, n⟩ := clrbit_neg_above d.mag i hd.limbs hd.norm h1 hgt hli
+        exact neg_result _ _ ⟨rfl, v, l, n, ne_nil_of_val_pos (by rw [v]; omega)⟩
+      · rw [if_neg hli]
+        obtain ⟨v, l, n⟩ := extend_bit d.mag i hd.limbs (by omega)
+        apply neg_result _ _ ⟨rfl, ?_, l, n, by simp⟩
+        change val (d.mag ++ List.replicate (i / 64 - d.mag.length) 0 ++ [2 ^ (i % 64)]) = _
+        have hlt : val d.mag - 1 < 2 ^ i :=
+          lt_of_le_of_lt (Nat.sub_le _ _) (val_lt_two_pow_of_short d.mag hd.limbs i (by omega))
+        rw [v, Nat.or_two_pow_eq_add_of_lt hlt]; omega
+    · rw [if_neg hgt]
+      by_cases heq : i / 64 = zeroBound d.mag
+      · rw [if_pos heq]
+        exact neg_result _ _ ⟨by split <;> rfl, by
+          have := clrbit_neg_at d.mag i hd.limbs hd.norm h1 heq _ rfl _ rfl
+          split <;> rename_i hx0
+          · rw [if_pos hx0] at this; exact this
+          · rw [if_neg hx0] at this; exact this⟩
+      · rw [if_neg heq]
+        refine ⟨?_, hd⟩
+        rw [toInt_neg d hn h1, or_two_pow_of_set (testBit_pred_low d.mag hd.limbs h1 i (by omega))]
+
+theorem lxor_pos (x k : Nat) : lxor (Int.ofNat x) (Int.ofNat k) = Int.ofNat (x ^^^ k) := rfl
+theorem lxor_neg (m k : Nat) : lxor (Int.negSucc m) (Int.ofNat k) = Int.negSucc (m ^^^ k) := rfl
+
+/-- combit.c:34-41: zero-extend so that limb `li` exists -/
+theorem pad_spec (mag : List Nat) (hl : Limbs mag) (li : Nat) :
+    val (if li ≥ mag.length then mag ++ List.replicate (li + 1 - mag.length) 0 else mag) = val mag ∧
+    Limbs (if li ≥ mag.length then mag ++ List.replicate (li + 1 - mag.length) 0 else mag) ∧
+    li < (if li ≥ mag.length then mag ++ List.replicate (li + 1 - mag.length) 0 else mag).length := by
+  by_cases h : li ≥ mag.length
+  · rw [if_pos h]
+    refine ⟨by rw [val_append, val_replicate_zero]; simp, Limbs_append.mpr ⟨hl, Limbs_replicate_zero _⟩, ?_⟩
+    rw [List.length_append, List.length_replicate]; omega
+  · rw [if_neg h]; exact ⟨rfl, hl, by omega⟩
+
+theorem and_bit_ne_zero (x r : Nat) : x &&& 2 ^ r ≠ 0 ↔ x.testBit r = true := by
+  rw [Nat.and_two_pow]
+  have := Nat.two_pow_pos r
+  cases h : x.testBit r
+  · simp
+  · simp
+
+theorem combit_pos (dp : List Nat) (i : Nat) (hl : Limbs dp) (h : i / 64 < dp.length) :
+    val (normalize (dp.set (i / 64) (dp.getD (i / 64) 0 ^^^ 2 ^ (i % 64)))) = val dp ^^^ 2 ^ i ∧
+    Limbs (normalize (dp.set (i / 64) (dp.getD (i / 64) 0 ^^^ 2 ^ (i % 64)))) ∧
+    Norm (normalize (dp.set (i / 64) (dp.getD (i / 64) 0 ^^^ 2 ^ (i % 64)))) := by
+  obtain ⟨hs, hlo, hd⟩ := split_facts dp hl (i / 64) h
+  have hbit := bit_lt_B i
+  have hx : dp.getD (i / 64) 0 ^^^ 2 ^ (i % 64) < B := by
+    unfold B at *; exact Nat.xor_lt_two_pow hd hbit
+  obtain ⟨n1, n2, n3, _, _⟩ := normalize_spec (dp.set (i / 64) (dp.getD (i / 64) 0 ^^^ 2 ^ (i % 64)))
+  refine ⟨?_, n3 (Limbs_set hl _ _ hx), n2⟩
+  rw [n1, val_set _ _ _ h]
+  have key := bitwise_limb_at bne rfl rfl (i / 64) (val (dp.take (i / 64)))
+    (dp.getD (i / 64) 0) (2 ^ (i % 64)) (val (dp.drop (i / 64 + 1))) hlo hd hbit
+  change (_ : Nat) ^^^ (_ : Nat) = _ + _ * (((_ : Nat) ^^^ (_ : Nat)) + _) at key
+  conv_rhs => rw [hs, two_pow_split i]
+  exact key.symm
+
+/-- combit.c:62-74: clearing the two's-complement bit increases the magnitude by 2^i -/
+theorem combit_neg_add (dp : List Nat) (i : Nat) (hl : Limbs dp) (h : i / 64 < dp.length) :
+    val (normalize (dp.take (i / 64) ++ (addLimb (dp.drop (i / 64)) (2 ^ (i % 64))).1 ++
+      [(addLimb (dp.drop (i / 64)) (2 ^ (i % 64))).2])) = val dp + 2 ^ i ∧
+    Limbs (normalize (dp.take (i / 64) ++ (addLimb (dp.drop (i / 64)) (2 ^ (i % 64))).1 ++
+      [(addLimb (dp.drop (i / 64)) (2 ^ (i % 64))).2])) ∧
+    Norm (normalize (dp.take (i / 64) ++ (addLimb (dp.drop (i / 64)) (2 ^ (i % 64))).1 ++
+      [(addLimb (dp.drop (i / 64)) (2 ^ (i % 64))).2])) := by
+  have hbit := bit_lt_B i
+  have hdne : dp.drop (i / 64) ≠ [] := by
+    intro h2; have := congrArg List.length h2; simp at this; omega
+  obtain ⟨a1, a2, a3, a4⟩ := addLimb_spec (dp.drop (i / 64)) (Limbs_drop hl _) _ hbit hdne
+  obtain ⟨n1, n2, n3, _, _⟩ := normalize_spec (dp.take (i / 64) ++ (addLimb (dp.drop (i / 64)) (2 ^ (i % 64))).1 ++
+      [(addLimb (dp.drop (i / 64)) (2 ^ (i % 64))).2])
+  have h1B : 1 < B := by rw [B_eq]; norm_num
+  refine ⟨?_, n3 (Limbs_append.mpr ⟨Limbs_append.mpr ⟨Limbs_take hl _, a3⟩, ?_⟩), n2⟩
+  · rw [n1, List.append_assoc, val_append, val_snoc, a4, a1, List.length_take, Nat.min_eq_left (by omega)]
+    conv_rhs => rw [val_take_drop dp (i / 64) (by omega), two_pow_split i]
+    ring
+  · intro y hy; simp at hy; rw [hy]; omega
+
+/-- combit.c:75-77: setting the two's-complement bit decreases the magnitude by 2^i (no borrow out) -/
+theorem combit_neg_sub (dp : List Nat) (i : Nat) (hl : Limbs dp) (h : i / 64 < dp.length)
+    (hge : 2 ^ i + 1 ≤ val dp) :
+    val (normalize (dp.take (i / 64) ++ (subLimb (dp.drop (i / 64)) (2 ^ (i % 64))).1)) = val dp - 2 ^ i ∧
+    Limbs (normalize (dp.take (i / 64) ++ (subLimb (dp.drop (i / 64)) (2 ^ (i % 64))).1)) ∧
+    Norm (normalize (dp.take (i / 64) ++ (subLimb (dp.drop (i / 64)) (2 ^ (i % 64))).1)) := by
+  have hbit := bit_lt_B i
+  have hp := pow_B_pos (i / 64)
+  have hdne : dp.drop (i / 64) ≠ [] := by
+    intro h2; have := congrArg List.length h2; simp at this; omega
+  have hsplit := val_take_drop dp (i / 64) (by omega)
+  have hlo := val_lt _ (Limbs_take hl (i / 64))
+  rw [List.length_take, Nat.min_eq_left (by omega)] at hlo
+  have hW : 2 ^ (i % 64) ≤ val (dp.drop (i / 64)) := by
+    by_contra hlt
+    have hlt : val (dp.drop (i / 64)) + 1 ≤ 2 ^ (i % 64) := by omega
+    have := Nat.mul_le_mul_left (B ^ (i / 64)) hlt
+    rw [← two_pow_split i, Nat.mul_add, Nat.mul_one] at this
+    omega
+  obtain ⟨s1, s2, s3⟩ := subLimb_noborrow (dp.drop (i / 64)) (Limbs_drop hl _) _ hbit hdne hW
+  obtain ⟨n1, n2, n3, _, _⟩ := normalize_spec (dp.take (i / 64) ++ (subLimb (dp.drop (i / 64)) (2 ^ (i % 64))).1)
+  refine ⟨?_, n3 (Limbs_append.mpr ⟨Limbs_take hl _, s2⟩), n2⟩
+  rw [n1, val_append, s1, List.length_take, Nat.min_eq_left (by omega), Nat.mul_sub, ← two_pow_split i]
+  have : 2 ^ i ≤ B ^ (i / 64) * val (dp.drop (i / 64)) := by
+    rw [two_pow_split i]; exact Nat.mul_le_mul_left _ hW
+  omega
+
+theorem mpz_combit_lxor (d : Z) (hd : d.WF) (i : Nat) :
+    (mpz_combit d i).toInt = lxor d.toInt (Int.ofNat (2 ^ i)) ∧ (mpz_combit d i).WF := by
+  unfold mpz_combit
+  simp only
+  obtain ⟨p1, p2, p3⟩ := pad_spec d.mag hd.limbs (i / 64)
+  generalize (if i / 64 ≥ d.mag.length then d.mag ++ List.replicate (i / 64 + 1 - d.mag.length) 0 else d.mag) = dp at *
+  cases hn : d.neg
+  · simp only [Bool.not_false, ↓reduceIte]
+    rw [toInt_nonneg d hn, lxor_pos]
+    obtain ⟨v, l, n⟩ := combit_pos dp i p2 p3
+    refine ⟨?_, Z.WF.mk' l n (by intro h; cases h)⟩
+    rw [toInt_nonneg _ rfl]
+    change Int.ofNat (val (normalize (dp.set (i / 64) (dp.getD (i / 64) 0 ^^^ 2 ^ (i % 64))))) = _
+    rw [v, p1]
+  · simp only [Bool.not_true, Bool.false_eq_true, ↓reduceIte]
+    have h1 := hd.pos hn
+    rw [toInt_neg d hn h1, lxor_neg]
+    have htb := testBit_pred dp p2 (by omega) i p3
+    rw [p1] at htb
+    by_cases hx : twosLimb dp (i / 64) &&& 2 ^ (i % 64) ≠ 0
+    · rw [if_pos hx]
+      have hx' := (and_bit_ne_zero _ _).mp hx
+      rw [hx'] at htb
+      obtain ⟨v, l, n⟩ := combit_neg_add dp i p2 p3
+      apply neg_result _ _ ⟨rfl, ?_, l, n, ne_nil_of_val_pos (by rw [v, p1]; exact Nat.le_add_right_of_le h1)⟩
+      change val (normalize (dp.take (i / 64) ++ (addLimb (dp.drop (i / 64)) (2 ^ (i % 64))).1 ++
+        [(addLimb (dp.drop (i / 64)) (2 ^ (i % 64))).2])) = _
+      rw [v, p1, xor_two_pow_of_clear (by simpa using htb)]; omega
+    · rw [if_neg hx]
+      have hx' : (twosLimb dp (i / 64)).testBit (i % 64) = false := by
+        cases h : (twosLimb dp (i / 64)).testBit (i % 64)
+        · rfl
+        · exact absurd ((and_bit_ne_zero _ _).mpr h) hx
+      rw [hx'] at htb
+      have htb' : (val d.mag - 1).testBit i = true := by simpa using htb
+      have hge := Nat.ge_two_pow_of_testBit htb'
+      obtain ⟨v, l, n⟩ := combit_neg_sub dp i p2 p3 (by omega)
+      apply neg_result _ _ ⟨rfl, ?_, l, n, ne_nil_of_val_pos (by rw [v]; omega)⟩
+      change val (normalize (dp.take (i / 64) ++ (subLimb (dp.drop (i / 64)) (2 ^ (i % 64))).1)) = _
+      rw [v, p1, xor_two_pow_of_set htb']; omega
+
+theorem ofNat_two_pow (i : Nat) : Int.ofNat (2 ^ i) = (2 : Int) ^ i := by
+  change ((2 ^ i : Nat) : Int) = _; push_cast; rfl
+
 end Mpir.Bits
